@@ -27,6 +27,7 @@ def obligations():
         Obl("C03.index.slice", "xh", H, "index_slice", sl, "n<=3, slice(a,b,c) with a,b in [-4,4], c in [-3,3]\\{0}", "incl. reversed and empty slices", 900, quick_pre="n == 3 and -3 <= a <= 3 and -3 <= b <= 3 and -2 <= c <= 2 and copy", timeout_thorough=2400),
         Obl("C03.index.slice_open", "xh", H, "index_slice_open", sl, "t[a:], t[:a], t[::-1], t[:]", "open-ended slices", 200),
         Obl("C03.index.list", "xh", H, "index_list", sl, "index lists/arrays of length 1..3 with entries in [-n, n) (repeats allowed)", "fancy indexing", 600, quick_pre="n >= 2 and i2 == 0", timeout_thorough=2400),
+        Obl("C03.index.key_types", "xh", H, "index_key_types", sl, "numpy integer scalars (int64, intp, int32) and a Python LIST of bools as keys; slice(copy=True) and t[key]", "same as numpy indexing; an extracted frame shares no memory with its source", 300),
         Obl("C03.index.mask", "xh", H, "index_mask", sl, "every boolean mask", "boolean mask indexing", 200),
         Obl("C03.join.two", "xh", H, "join_two", [TJ + "join", TJ + "__add__"], "n1<=3, n2<=2, all flag combinations", "join == concatenation of every field; operands unchanged; nothing shared", 400),
         Obl("C03.join.three", "xh", H, "join_three_plus", [TJ + "join", "mdtraj.core.trajectory.join"], "three operands of 1..2 frames, md.join(list) or a+b+c", "same", 400),
